@@ -819,7 +819,14 @@ impl World {
             let fee = sn.value as u128 - total;
             // highest feerate that can give rise to this fee: floor((fee*1000+999)/weight)
             let x = fee * 1000 + 999;
-            if x < p.min_fee as u128 * weight || x >= (p.max_fee as u128 + 1) * weight {
+            if p.max_fee == u32::MAX as u64 && x >= p.min_fee as u128 * weight {
+                // max_feerate_per_kw = u32::MAX: the clamped estimate can never exceed it (finding C05-S1)
+                if x >= (p.max_fee as u128 + 1) * weight {
+                    self.violation(idx, "accepted-fee-above-u32max-sentinel",
+                        format!("{} commitment {} accepted with fee {} sat on weight {} = {} sat/kw > max_feerate_per_kw = u32::MAX",
+                            who, cm.n, fee, weight, x / weight));
+                }
+            } else if x < p.min_fee as u128 * weight || x >= (p.max_fee as u128 + 1) * weight {
                 self.violation(idx, "accepted-fee-out-of-range",
                     format!("{} commitment {} accepted with fee {} sat on weight {} = {} sat/kw outside [{}, {}]",
                         who, cm.n, fee, weight, x / weight, p.min_fee, p.max_fee));
@@ -926,10 +933,10 @@ impl World {
         let hs = if a[2] != 0 { Some(script_of(&node, a[3])) } else { None };
         let cs = if a[7] != 0 { Some(script_of(&node, a[8])) } else { None };
         let hpath = if a[5] != 0 { path_of(a[3]) } else if idx % 2 == 0 { DerivationPath::master() } else { path_of(7) };
+        let before = self.snapshot();
         let r = catch_unwind(AssertUnwindSafe(|| {
             node.with_channel(&cid, |c| c.sign_mutual_close_tx_phase2(hv, cv, &hs, &cs, &hpath))
         }));
-        let before = self.snapshot();
         let (line, sig) = self.finish(r);
         if let Some(sig) = sig {
             let outs: Vec<(u64, Option<u64>)> = vec![(hv, if a[2] != 0 { Some(a[3]) } else { None }), (cv, if a[7] != 0 { Some(a[8]) } else { None })];
@@ -974,8 +981,8 @@ impl World {
         if !canon && is_canonical(&tx.output) {
             tx.lock_time = LockTime::from_consensus(1);
         }
-        let r = catch_unwind(AssertUnwindSafe(|| node.with_channel(&cid, |c| c.sign_mutual_close_tx(&tx, &paths))));
         let before = self.snapshot();
+        let r = catch_unwind(AssertUnwindSafe(|| node.with_channel(&cid, |c| c.sign_mutual_close_tx(&tx, &paths))));
         let (line, sig) = self.finish(r);
         if let Some(sig) = sig {
             let outs2: Vec<(u64, u64, bool)> = (0..k).map(|j| (a[3 + 5 * j], a[4 + 5 * j], a[6 + 5 * j] != 0)).collect();
@@ -1036,7 +1043,12 @@ impl World {
             bad.push(("close-fee-out-of-range", format!("outputs {} exceed the channel value {}", total, sn.value)));
         } else if p.errs(BIT_MUTUAL_FEE) {
             let x = (sn.value as u128 - total) * 1000 + 999;
-            if x < p.min_fee as u128 * weight || x >= (p.max_fee as u128 + 1) * weight {
+            if p.max_fee == u32::MAX as u64 && x >= p.min_fee as u128 * weight {
+                if x >= (p.max_fee as u128 + 1) * weight {
+                    bad.push(("close-fee-above-u32max-sentinel",
+                        format!("fee {} on weight {} = {} sat/kw > max_feerate_per_kw = u32::MAX", sn.value as u128 - total, weight, x / weight)));
+                }
+            } else if x < p.min_fee as u128 * weight || x >= (p.max_fee as u128 + 1) * weight {
                 bad.push(("close-fee-out-of-range",
                     format!("fee {} on weight {} = {} sat/kw outside [{}, {}]", sn.value as u128 - total, weight, x / weight, p.min_fee, p.max_fee)));
             }
@@ -1176,7 +1188,14 @@ pub fn is_canonical(outs: &[TxOut]) -> bool {
 pub fn run_case(ops: &[String]) -> CaseOut {
     let mut w = World::new();
     for (i, op) in ops.iter().enumerate() {
-        let line = w.exec(i, op);
+        let line = match catch_unwind(AssertUnwindSafe(|| w.exec(i, op))) {
+            Ok(l) => l,
+            Err(e) => {
+                let msg = e.downcast_ref::<String>().cloned().or_else(|| e.downcast_ref::<&str>().map(|s| s.to_string())).unwrap_or_default();
+                w.dead = true;
+                format!("harness-panic {}", msg.replace('\n', " "))
+            }
+        };
         w.out.out.push(line);
     }
     w.out.nontrivial = w.accepted > 0 && (w.refused > 0 || w.dead);
